@@ -34,6 +34,7 @@ import (
 
 	storetypes "cosmossdk.io/store/types"
 	abci "github.com/cometbft/cometbft/abci/types"
+	tmbytes "github.com/cometbft/cometbft/libs/bytes"
 	cmtproto "github.com/cometbft/cometbft/proto/tendermint/types"
 	sdk "github.com/cosmos/cosmos-sdk/types"
 
@@ -44,6 +45,7 @@ import (
 	oracle "mods.irisnet.org/modules/oracle"
 	random "mods.irisnet.org/modules/random"
 	service "mods.irisnet.org/modules/service"
+	servicetypes "mods.irisnet.org/modules/service/types"
 )
 
 func main() { drv.Main("genesis", driver) }
@@ -256,9 +258,6 @@ type live struct {
 	h0      int64
 	left    int64 // blocks still to run; <0 = to the end
 	nblocks int64
-	equal   bool
-	halted  string
-	first   bool // the next block is the first one after InitChain
 	dueNow  chain.M
 	dueNext chain.M
 }
@@ -393,7 +392,7 @@ func (s *session) roundTrip(mode string, nextHasAuthority bool) *live {
 	// the chain must also be able to run: the first block is an empty one,
 	// except for an as-is import that is going to be continued with the
 	// recorded blocks (its first block is then the next recorded block)
-	lv := &live{c: imp, h0: h, left: s.cont, equal: true, first: true, dueNow: dueNow, dueNext: dueNext}
+	lv := &live{c: imp, h0: h, left: s.cont, dueNow: dueNow, dueNext: dueNext}
 	if zero || s.cont == 0 || nextHasAuthority {
 		res := imp.RunRawBlock(ih, t.Add(5*time.Second), nil)
 		if res.Halt {
@@ -443,8 +442,27 @@ func (s *session) culprit(gs map[string]json.RawMessage, ih int64, t time.Time) 
 	return ""
 }
 
-// stepLives runs the block the source just executed on every continued import.
+// stepLives runs the block the source just executed on every continued import
+// and compares it with the source.  A continuation ends, with one Continuation
+// event,
+//   - when the import halts,
+//   - at the first height where a query about a durable object of the source is
+//     answered differently (the clause fails there),
+//   - when the transaction results of a block differ from the source's (from
+//     then on the two chains no longer execute the same history; the durable
+//     answers were equal up to the block before — logged, not a verdict: a
+//     re-imported chain has different app hashes, which the random module feeds
+//     into its choices),
+//   - after cont blocks, or at the end of the history.
 func (s *session) stepLives(b *chain.RecBlock, srcRes chain.RawResult, last bool) {
+	if len(s.lives) == 0 {
+		return
+	}
+	src := s.src
+	srcCtx := src.Ctx()
+	qs := Universe(src, srcCtx)
+	want := evalAll(src, srcCtx, qs, 0)
+	skip := appHashDependent(src, srcCtx)
 	var keep []*live
 	for _, lv := range s.lives {
 		for _, a := range b.Authority {
@@ -455,14 +473,64 @@ func (s *session) stepLives(b *chain.RecBlock, srcRes chain.RawResult, last bool
 		if lv.left > 0 {
 			lv.left--
 		}
+		e := newResEv("Continuation", s.name, src.Height)
+		e["mode"], e["h0"], e["nblocks"] = modeAsIs, lv.h0, lv.nblocks
+		rs(e)["due_now"], rs(e)["due_next"] = lv.dueNow, lv.dueNext
 		if res.Halt {
-			lv.halted = res.HaltMsg
-		} else if resultsDigest(res.Txs) != resultsDigest(srcRes.Txs) {
-			lv.equal = false
+			e["halt"], e["accepted"], e["stage"], rs(e)["err"] = true, false, "continue", short(res.HaltMsg, 240)
+			rs(e)["durable"] = boolMap(false)
+			s.w.Write(e, chain.M{})
+			continue
 		}
-		lv.first = false
-		if lv.halted != "" || lv.left == 0 || last {
-			s.finishLive(lv)
+		if resultsDigest(res.Txs) != resultsDigest(srcRes.Txs) {
+			if verbose {
+				for i := range res.Txs {
+					if i < len(srcRes.Txs) && (res.Txs[i].Code != srcRes.Txs[i].Code || string(res.Txs[i].Data) != string(srcRes.Txs[i].Data)) {
+						fmt.Printf("[%s continuation from %d] first differing tx result at height %d tx %d:\n    source:   code=%d %s\n    imported: code=%d %s\n",
+							s.name, lv.h0, b.Height, i, srcRes.Txs[i].Code, short(srcRes.Txs[i].Log, 300), res.Txs[i].Code, short(res.Txs[i].Log, 300))
+						break
+					}
+				}
+			}
+			// durable answers were equal after every earlier block
+			e["results_equal"] = false
+			s.w.Write(e, chain.M{})
+			continue
+		}
+		var cq []objQuery
+		for _, q := range qs {
+			if !skip[q.mod] {
+				cq = append(cq, q)
+			}
+		}
+		got := evalAll(lv.c, lv.c.Ctx(), cq, 0)
+		if verbose {
+			fmt.Printf("[%s continuation %d -> %d]\n", s.name, lv.h0, src.Height)
+		}
+		compareAnswers(e, cq, want, got)
+		if verbose {
+			for _, q := range cq {
+				if q.mod == "farm" && strings.HasPrefix(q.id, "pool/") {
+					fmt.Printf("   DBG %s\n     src %s\n     imp %s\n", q.id, short(want[q.mod][q.id], 400), short(got[q.mod][q.id], 400))
+				}
+			}
+		}
+		differs := false
+		for _, m := range Modules {
+			if !rs(e)["durable"].(chain.M)[m].(bool) {
+				differs = true
+			}
+		}
+		if br := invariants(lv.c, lv.c.Ctx()); len(br) > 0 {
+			e["invariants_ok"] = false
+			var l []any
+			for _, x := range br {
+				l = append(l, x)
+			}
+			rs(e)["broken"] = l
+		}
+		if differs || lv.left == 0 || last {
+			s.w.Write(e, chain.M{})
 			continue
 		}
 		keep = append(keep, lv)
@@ -470,34 +538,24 @@ func (s *session) stepLives(b *chain.RecBlock, srcRes chain.RawResult, last bool
 	s.lives = keep
 }
 
-func (s *session) finishLive(lv *live) {
-	src := s.src
-	e := newResEv("Continuation", s.name, src.Height)
-	e["mode"], e["h0"], e["nblocks"], e["results_equal"] = modeAsIs, lv.h0, lv.nblocks, lv.equal
-	rs(e)["due_now"], rs(e)["due_next"] = lv.dueNow, lv.dueNext
-	if lv.halted != "" {
-		e["halt"], e["accepted"], e["stage"], rs(e)["err"] = true, false, "continue", short(lv.halted, 240)
-		rs(e)["durable"] = boolMap(false)
-		s.w.Write(e, chain.M{})
-		return
-	}
-	srcCtx := src.Ctx()
-	qs := Universe(src, srcCtx)
-	want := evalAll(src, srcCtx, qs, 0)
-	got := evalAll(lv.c, lv.c.Ctx(), qs, 0)
-	if verbose {
-		fmt.Printf("[%s continuation %d -> %d]\n", s.name, lv.h0, src.Height)
-	}
-	compareAnswers(e, qs, want, got)
-	if br := invariants(lv.c, lv.c.Ctx()); len(br) > 0 {
-		e["invariants_ok"] = false
-		var l []any
-		for _, b := range br {
-			l = append(l, b)
+// appHashDependent: modules whose behaviour on a continued import legitimately
+// differs from the source because it depends on the application hash (a
+// re-imported chain has a different store history, hence different app hashes):
+// the random module seeds its choice of the service provider for oracle-backed
+// requests with ctx.BlockHeader().AppHash.  While the source holds request
+// contexts created by the random module, service and random objects are not
+// compared on continuations.
+func appHashDependent(c *chain.Chain, ctx sdk.Context) map[string]bool {
+	out := map[string]bool{}
+	defer func() { recover() }()
+	c.K.Service.IterateRequestContexts(ctx, func(_ tmbytes.HexBytes, rc servicetypes.RequestContext) bool {
+		if rc.ModuleName == "random" {
+			out["service"], out["random"] = true, true
+			return true
 		}
-		rs(e)["broken"] = l
-	}
-	s.w.Write(e, chain.M{})
+		return false
+	})
+	return out
 }
 
 // runRecording replays one recording with round trips every K blocks.
